@@ -84,21 +84,41 @@ func main() {
 		return
 	}
 	if *tier == "thorough" {
-		// the remaining configurations, one process each
+		// the remaining configurations, one process each (run concurrently)
+		type childRes struct {
+			c    core.Config
+			obls []core.Obligation
+			und  []string
+			err  error
+		}
+		var cfgs []core.Config
 		for _, c := range thoroughConfigs() {
-			if c == cfg {
+			if c != cfg {
+				cfgs = append(cfgs, c)
+			}
+		}
+		results := make([]childRes, len(cfgs))
+		done := make(chan int, len(cfgs))
+		for i, c := range cfgs {
+			go func(i int, c core.Config) {
+				obls, und, err := runChild(*prop, c)
+				results[i] = childRes{c, obls, und, err}
+				done <- i
+			}(i, c)
+		}
+		for range cfgs {
+			<-done
+		}
+		for _, r := range results {
+			if r.err != nil {
+				ctx.Undecide("configuration %s: %v", r.c, r.err)
 				continue
 			}
-			obls, und, err := runChild(*prop, c)
-			if err != nil {
-				ctx.Undecide("configuration %s: %v", c, err)
-				continue
+			ctx.Obls = append(ctx.Obls, r.obls...)
+			for _, u := range r.und {
+				ctx.Undecide("configuration %s: %s", r.c, u)
 			}
-			ctx.Obls = append(ctx.Obls, obls...)
-			for _, u := range und {
-				ctx.Undecide("configuration %s: %s", c, u)
-			}
-			ctx.Saw("configurations", c.String())
+			ctx.Saw("configurations", r.c.String())
 		}
 	}
 	ctx.Saw("configurations", cfg.String())
